@@ -10,6 +10,7 @@ from props.c12 import shape
 ID = "C13"
 SECTIONS = ["units"]
 LEAN_MODULES = ["QExPy.Props.C13"]
+LEMMA_MODULES = ["QExPy.Lemmas.UnitParse", "QExPy.Lemmas.ParseSpec", "QExPy.Lemmas.PrintNum", "QExPy.Lemmas.PrintAst"]
 THEOREMS = ["QExPy.C13_separator_tie", "QExPy.C13_roundtrip", "QExPy.C13_assign_twice",
             "QExPy.C13_roundtrip_partial", "QExPy.C13_printed_forms_accepted"]
 RULE = ("exponent maps over 1-4 symbols (every order), integer exponents in [-4,4] without 0 and "
